@@ -33,6 +33,8 @@ LOAD = dict(pkg="./cache/disk", test="TestVerifLoad", name="load", diff=True, al
 
 CRASH = dict(pkg="./cache/disk", test="TestVerifCrash", name="crash", diff=False)
 
+SCHED = dict(pkg="./cache/disk", test="TestVerifSchedules", name="sched", diff=True, race=True, also=["C07", "C03"])
+
 COMMON_TB = [
     "goroutine scheduling, sync.Mutex and the file system are modelled (atomic lock regions, process-visible file state), not verified",
 ]
@@ -42,7 +44,7 @@ TECH = "Lean 4 theorems over an executable model + regenerated Gen/Bridge facts 
 
 PROPS = {
     "C03": dict(
-        lean="BR.Props.C03", runs=[LRU, F14, DISK], trusted_base=COMMON_TB,
+        lean="BR.Props.C03", runs=[LRU, F14, DISK, SCHED], trusted_base=COMMON_TB,
         assumptions=["item sizes and max_size below 2^62 so that roundUp4k and Add's additions do not wrap int64"],
         level_text="Invariant (currentSize = reserved + sum of 4 KiB-rounded entries <= maxSize, logical total, entry count) proved by induction for every finite sequence of LRU operations of model M1; model checked against SizedLRU op by op.",
         level_note=NOTE + "concurrency enters through the atomic-lock-region assumption.", technique=TECH),
@@ -124,6 +126,10 @@ PROPS = {
         lean="BR.Props.C08", runs=[CRASH, LOAD], trusted_base=COMMON_TB + ["a kill is modelled as a file-system image between two write calls of the upload (process-kill semantics: completed writes are visible); power loss, fsync and directory-entry durability are not modelled"], assumptions=[],
         level_text="Theorems on M2/M6/M1: every file image a compressed upload can leave at a kill, except the final one of a successful write, is refused by readHeader and so by both readers (absent or complete, for all sizes, chunk sizes and streams); the final image is served identically at every offset; restart on any set of files re-establishes the accounting invariant and keeps every file tracked; a raw file (AC, RAW, uncompressed CAS) is adopted with its current length (F16). The real Put is interrupted at generated stream offsets, at the gate between file completion and index insertion and after the acknowledgement; every image is restarted in both storage modes and read through every path.",
         level_note=NOTE + "partial: power-loss durability is outside the model; torn raw files are the recorded finding F16.", technique=TECH),
+    "C07": dict(
+        lean="BR.Props.C07", runs=[SCHED, F14], trusted_base=COMMON_TB + ["each index-lock region is taken as atomic and memory as touched only inside lock regions; an open file keeps its content after unlink; tempfile.Create never returns a name in use (O_EXCL): assumptions of model M5, not conclusions"], assumptions=["schedules are interleavings at the verif yield points; finer interleavings inside a lock region are excluded by the mutex"],
+        level_text="Theorems on M5 for every schedule of any number of uploads, reads, remover steps and file corruptions: the C03 index invariant holds after every step and exactly the uploads in flight hold reservations (so nothing stays reserved at quiescence); every read that returns data returns the complete bytes of one completed upload to the same key. The real Put/Get/remover are driven along generated schedules through the yield points (a released segment must reach its next gate or finish) and compared with the model on read results, reservations, entry count and recency order; quiescence oracles for accounting and directory; thorough tier under the race detector.",
+        level_note=NOTE + "partial: atomicity of lock regions and absence of data races are assumed by the model (race detector in the thorough tier); the directory invariant under interleavings is checked, not proved.", technique=TECH),
 }
 
 _root = os.path.dirname(os.path.dirname(os.path.abspath(__file__)))
